@@ -8,7 +8,10 @@
 (*                                                                         *)
 (* Abstract rows (harness/sim/c17.go concretises them):                    *)
 (*  entry = [kind, label \in {"none","match","mismatch"}, subs : Seq(...)] *)
-(*  obj   = [og, shape, condA, condB, fields, x]                           *)
+(*  obj   = [og, shape, condA, condB, fields, x, gen]                      *)
+(*  gen: metadata.generation readable ("int") or not ("absent", "string"): *)
+(*  an unreadable generation counts as 0, so every declared               *)
+(*  observedGeneration is outdated                                         *)
 (***************************************************************************)
 EXTENDS Naturals, Sequences, FiniteSets
 
@@ -16,7 +19,7 @@ Selected(e) == e.kind # "mismatch" /\ e.label # "mismatch"
 
 \* a condition sub-probe needs a well-formed conditions list; a non-map entry met before the wanted one is "malformed"
 SubPass(s, o) ==
-    CASE s = "condA"  -> o.shape = "ok" /\ o.condA \in {"TrueNoOG", "TrueOGeq"}
+    CASE s = "condA"  -> o.shape = "ok" /\ (o.condA = "TrueNoOG" \/ (o.condA = "TrueOGeq" /\ o.gen = "int"))
       [] s = "condB"  -> o.shape = "ok" /\ o.condB = "True"
       [] s = "fields" -> o.fields = "equal"                 \* missing field or different value fails
       [] s = "cel"    -> o.x > 0
@@ -28,7 +31,7 @@ SumSeq(s) == LET F[i \in 0..Len(s)] == IF i = 0 THEN 0 ELSE F[i - 1] + s[i] IN F
 \* number of failure messages one entry contributes
 EntryMsgs(e, o) ==
     IF ~Selected(e) THEN 0
-    ELSE IF o.og = "stale" THEN 1                                  \* .status outdated: sub-probes are not consulted
+    ELSE IF o.og = "stale" \/ (o.og = "equal" /\ o.gen # "int") THEN 1   \* .status outdated: sub-probes are not consulted
     ELSE Cardinality({ i \in DOMAIN e.subs : ~SubPass(e.subs[i], o) })
 
 ParseFails(es) == \E i \in DOMAIN es : \E j \in DOMAIN es[i].subs : es[i].subs[j] = "celNonBool"   \* CEL rules must be boolean
